@@ -1,7 +1,7 @@
 (* C03/Property.v — property C03 (downloaded log and parameter tables equal the device tables).
    Theorems only; each is closed by `exact <lemma>` and followed by Print Assumptions.
    Model: C03/Model.v (Toc, TocFetcher, element parsers, TOC server, adversary), C03/ExtModel.v. *)
-From CF Require Import Common.Bytes C03.Model C03.ExtModel C03.Proofs C03.Fetch C03.Lookup C03.Live C03.Ext C03.Restart C03.Stale C03.Version C03.Frame.
+From CF Require Import Common.Bytes C03.Model C03.ExtModel C03.Proofs C03.Fetch C03.Lookup C03.Live C03.Ext C03.Restart C03.Stale C03.Version C03.Frame C03.Sequence.
 Open Scope Z_scope.
 
 (* Element decoding is the inverse of the firmware's wire encoding: for every entry with NUL-free
@@ -332,3 +332,19 @@ Theorem C03_memoised_elements_refuted :
   map e_ident before = [0; 1] /\ map e_ident (view w2 ta) = [1; 0] /\ map e_ident (view w2 tb) = [0; 1].
 Proof. exact memoised_elements_refuted. Qed.
 Print Assumptions C03_memoised_elements_refuted.
+
+(* When `connected` is signalled (model C03/Sequence.v of the sequencing in Crazyflie: log TOC, then memories, then
+   parameter TOC, connected from the completion of the last step): for EVERY history of sessions of one object —
+   opens, step completions, closes / link losses at any point — whenever connected is signalled the log download and
+   the parameter download of THIS session have completed. *)
+Theorem C03_connected_means_both_tables_of_this_session : forall evs,
+  Forall (fun p => p = (true, true)) (h_conn (hrun evs)).
+Proof. exact connected_means_both_done. Qed.
+Print Assumptions C03_connected_means_both_tables_of_this_session.
+
+(* running both downloads at once and joining them with flags that survive a disconnect is refuted *)
+Theorem C03_surviving_flags_refuted :
+  j_conn (jrun [SOpen; SParamDone; SClose; SOpen; SLogDone]) = [(true, false)] /\
+  h_conn (hrun [SOpen; SParamDone; SClose; SOpen; SLogDone]) = [].
+Proof. exact surviving_flags_refuted. Qed.
+Print Assumptions C03_surviving_flags_refuted.
